@@ -265,6 +265,12 @@ def _impl(tier, seed, search):
                 L.check(f'{law}:range', -PI - 1e-12 <= r <= PI + 1e-12, dict(a=a, b=c), f'{law} outside [-pi, pi]', observed=r)
                 k = (arg - r) / (2 * PI)
                 L.check(f'{law}:congruent', abs(k - round(k)) <= 1e-12 * max(1.0, abs(arg)), dict(a=a, b=c), f'{law} is not congruent to its argument modulo 2 pi', observed=r)
+    # round 11: UnitQuaternion(s, v) normalises its argument by default, with check=True or check=False alike (norm=False stores as given)
+    for s_, v_ in ((3.0, [0.0, 4.0, 0.0]), (1e-6, [0.0, 0.0, 0.0]), (1.0 + 1e-9, [0.0, 0.0, 0.0]), (0.5, [0.5, -0.5, 0.5000001]), (-2.0, [1.0, 1.0, 1.0])):
+        q_ = np.r_[s_, v_]; want_ = q_ / np.linalg.norm(q_); inp_ = dict(s=s_, v=v_)
+        for ck_ in (True, False):
+            ok, r = L.noraise(f'UnitQuaternion(s, v, check={ck_})', lambda: UnitQuaternion(s_, v_, check=ck_).vec, dict(inp_, check=ck_), 'UnitQuaternion(s, v)', sig='UQ(s,v):raises')
+            if ok: L.close(f'UnitQuaternion(s, v, check={ck_})', np.asarray(r, float), want_, 1e-15, 1.0, dict(inp_, check=ck_), what='UnitQuaternion(s, v) does not hold the normalised quaternion', sig=f'UQ(s,v):normalised:check={ck_}')
     return L.result()
 
 if __name__ == '__main__':
